@@ -425,6 +425,12 @@ impl<'a> RawFile<'a> {
                 warnings,
             );
         }
+        if s.ec > 255 {
+            return (
+                Err(DeserializationError::InvalidCharacterRange(s.bc, s.ec)),
+                warnings,
+            );
+        }
         let (bc, ec) = match s.bc.cmp(&s.ec.saturating_add(1)) {
             std::cmp::Ordering::Less => {
                 let ec: u8 = match s.ec.try_into() {
